@@ -24,13 +24,15 @@ fn model(pattern: u32, off: u32) -> Grid {
 }
 
 /// `stale`: the sheet's advisory dimension record (xlsx `<dimension>`, xlsb BrtWsDim) names only the first used row
-fn build(fmt: &str, g: &Grid, stale: bool) -> Vec<u8> {
+fn build(fmt: &str, g: &Grid, variant: u8) -> Vec<u8> {
+    // variants: 0 plain, 1 out-of-date advisory dimension record (xlsx, xlsb), 2 rows and cells without r attributes (xlsx)
+    let stale = variant == 1;
     match fmt {
         "xlsx" => {
             let mut book = xlsx::XBook::default();
             let cells = g.iter().map(|((r, c), v)| xlsx::XCell::new(*r, *c, match v { Data::Float(f) => xlsx::XVal::Num(format!("{f}")), Data::String(s) => xlsx::XVal::InlineStr(xlsx::XText::plain(s)), _ => xlsx::XVal::None })).collect();
             book.sheets.push(xlsx::XSheet::new("S", cells));
-            xlsx::write(&book, &xlsx::XEnc { dim: if stale { xlsx::DimMode::StaleRows } else { xlsx::DimMode::Exact }, ..Default::default() })
+            xlsx::write(&book, &xlsx::XEnc { dim: if stale { xlsx::DimMode::StaleRows } else { xlsx::DimMode::Exact }, row_r: if variant == 2 { xlsx::RMode::Implicit } else { xlsx::RMode::Explicit }, cell_r: if variant == 2 { xlsx::RMode::Implicit } else { xlsx::RMode::Explicit }, ..Default::default() })
         }
         "xlsb" => {
             let items = g.iter().map(|((r, c), v)| xlsb::BItem::Cell { row: *r, col: *c, style: 0, val: match v { Data::Float(f) => xlsb::BVal::Real(*f), Data::String(s) => xlsb::BVal::St(s.clone()), _ => xlsb::BVal::Blank } }).collect();
@@ -124,17 +126,18 @@ pub fn check(rep: &Report) {
     if t { for a in &opts { for b in &opts { for c in &opts { hists.push(vec![*a, *b, *c]); } } } }
     else { for a in small { for b in small { for c in small { hists.push(vec![a, b, c]); } } } }
     let mut jobs = vec![];
-    for f in FORMATS { for p in 0..32u32 { for off in [0u32, 2] { for stale in [false, true] { if stale && (f == "xls" || f == "ods") { continue; } jobs.push((f, p, off, stale)); } } } }
+    for f in FORMATS { for p in 0..32u32 { for off in [0u32, 2] { for variant in [0u8, 1, 2] { if (variant == 1 && (f == "xls" || f == "ods")) || (variant == 2 && f != "xlsx") { continue; } jobs.push((f, p, off, variant)); } } } }
     let nh = hists.len() as u64;
-    jobs.par_iter().for_each(|(fmt, p, off, stale)| {
+    jobs.par_iter().for_each(|(fmt, p, off, variant)| {
+        let stale = &(*variant == 1);
         let g = model(*p, *off);
-        let bytes = build(fmt, &g, *stale);
+        let bytes = build(fmt, &g, *variant);
         let mut local = vec![];
         for h in &hists {
-            crate::engine::crumb::set_case(&format!("C08 format={fmt} rows={p:05b} col_offset={off} stale_dimension={stale} history={h:?}"));
+            crate::engine::crumb::set_case(&format!("C08 format={fmt} rows={p:05b} col_offset={off} variant={variant} history={h:?}"));
             rep.eval(1);
             let res = guarded(|| match *fmt { "xlsx" => run_history::<Xlsx<_>>(&bytes, h), "xlsb" => run_history::<Xlsb<_>>(&bytes, h), "xls" => run_history::<Xls<_>>(&bytes, h), _ => run_history::<Ods<_>>(&bytes, h) });
-            let replay = || Replay { json: json!({"format": fmt, "row_pattern": p, "col_offset": off, "stale_dimension": stale, "history": h.iter().map(|o| format!("{o:?}")).collect::<Vec<_>>()}), files: vec![(fmt.to_string(), bytes.clone())] };
+            let replay = || Replay { json: json!({"format": fmt, "row_pattern": p, "col_offset": off, "variant": variant, "history": h.iter().map(|o| format!("{o:?}")).collect::<Vec<_>>()}), files: vec![(fmt.to_string(), bytes.clone())] };
             let last_n = h.iter().rev().find_map(|o| if let Opt::Row(n) = o { Some(*n) } else { None });
             let cls = last_n.map(|n| n_class(&g, n)).unwrap_or("default");
             let outcome = match &res {
@@ -144,14 +147,14 @@ pub fn check(rep: &Report) {
                     for (i, (r, o)) in ranges.iter().zip(h.iter()).enumerate() {
                         if let Err((kind, detail)) = check_read(r, &g, *o) {
                             let c = match o { Opt::Row(n) => n_class(&g, *n), _ => "default" };
-                            rep.fail(&format!("{fmt}/{kind}/{c}{}{}", if i > 0 { "/after-option-change" } else { "" }, if *stale { "/stale-dimension" } else { "" }), &format!("step {i} under {o:?}: {detail} (history {h:?})"), replay);
+                            rep.fail(&format!("{fmt}/{kind}/{c}{}{}", if i > 0 { "/after-option-change" } else { "" }, match *variant { 1 => "/stale-dimension", 2 => "/implicit-references", _ => "" }), &format!("step {i} under {o:?}: {detail} (history {h:?})"), replay);
                             break;
                         }
                     }
                     hash_of(&ranges.iter().map(crate::model::sheet::range_digest).collect::<Vec<_>>())
                 }
             };
-            local.push((hash_of(&(fmt, p, off, format!("{h:?}"))), *p != 0 && last_n.is_some(), outcome));
+            local.push((hash_of(&(fmt, p, off, variant, format!("{h:?}"))), *p != 0 && last_n.is_some(), outcome));
         }
         rep.cases_bulk(&local);
         crate::engine::crumb::clear();
@@ -171,7 +174,7 @@ pub fn replay(path: &str) -> i32 {
     let fmt = v["format"].as_str().unwrap().to_string();
     let g = model(v["row_pattern"].as_u64().unwrap() as u32, v["col_offset"].as_u64().unwrap() as u32);
     let h: Vec<Opt> = v["history"].as_array().unwrap().iter().map(|o| { let s = o.as_str().unwrap(); if s.starts_with("Row(") { Opt::Row(s[4..s.len() - 1].parse().unwrap()) } else { Opt::First } }).collect();
-    let bytes = build(&fmt, &g, v["stale_dimension"].as_bool().unwrap_or(false));
+    let bytes = build(&fmt, &g, v["variant"].as_u64().unwrap_or(0) as u8);
     let run = || guarded(|| match fmt.as_str() { "xlsx" => run_history::<Xlsx<_>>(&bytes, &h), "xlsb" => run_history::<Xlsb<_>>(&bytes, &h), "xls" => run_history::<Xls<_>>(&bytes, &h), _ => run_history::<Ods<_>>(&bytes, &h) }.map(|v| v.iter().map(crate::model::sheet::range_digest).collect::<Vec<_>>()));
     let (a, b) = (run(), run());
     if format!("{a:?}") != format!("{b:?}") { eprintln!("MACHINERY: replay not deterministic"); return 2; }
